@@ -113,7 +113,7 @@ func (d *Decl) outFile() string {
 	for x.Parent != nil {
 		x = x.Parent
 	}
-	return x.File.Dir + "/" + x.File.Name + ".j5s.proto"
+	return x.File.OutPath()
 }
 
 type refCompiler struct {
@@ -124,8 +124,13 @@ type refCompiler struct {
 func (p *Program) Expected() *Contract {
 	rc := &refCompiler{c: NewContract()}
 	for _, f := range p.Files {
-		schemaFile := f.Dir + "/" + f.Name + ".j5s.proto"
+		schemaFile := f.OutPath()
 		rc.c.file(schemaFile, f.Package())
+		if f.IsProto {
+			for _, im := range f.ProtoImports {
+				rc.c.Files[schemaFile].Imports[im] = true
+			}
+		}
 		for _, d := range f.Decls {
 			switch d := d.(type) {
 			case *Decl:
